@@ -7,7 +7,7 @@
    regenerated from external_data.py on every run. *)
 From Coq Require Import ZArith List Bool Lia Permutation.
 From IRV Require Import Base.Exn Gen.C09Gen C07.Model C09.Model
-  C09.Proofs1 C09.Proofs2 C09.Proofs3 C09.Proofs4 C09.Proofs5.
+  C09.Proofs1 C09.Proofs2 C09.Proofs3 C09.Proofs4 C09.Proofs5 C09.Proofs6.
 Import ListNotations.
 Close Scope Z_scope.
 Open Scope nat_scope.
@@ -95,20 +95,54 @@ Theorem C09_file_deterministic :
 Proof. exact file_deterministic. Qed.
 Print Assumptions C09_file_deterministic.
 
+(* Every tensor is evaluated (tofile entered) at most once, whatever fails and however the run ends:
+   no retry path exists in the writer. *)
+Theorem C09_evaluated_at_most_once :
+  forall c s t, reachable c s -> s_evals s t <= 1.
+Proof. intros c s t Hr. apply (ev_le c s (eval_reachable c s Hr)). Qed.
+Print Assumptions C09_evaluated_at_most_once.
+
+(* Worker descriptors: a parallel writer's worker holds an open descriptor whenever it is between taking
+   the tensor lock and giving it back (so every write goes through a descriptor that worker opened) ... *)
+Theorem C09_handle_valid :
+  forall c s w t pc, reachable c s -> s_wk s w = WRun t pc -> needs_handle pc = true ->
+  serial c (wpool c w) = false -> s_hopen s w = true.
+Proof. intros c s w t pc Hr. apply (handle_valid_reachable c s Hr). Qed.
+Print Assumptions C09_handle_valid.
+
+(* ... and when the caller gets control back — normally or with an exception, OSError from a failed
+   open(path, "r+b") included — every worker descriptor has been closed. *)
+Theorem C09_handles_closed :
+  forall c s e, wf_cfg c -> reachable c s -> s_main s = MDeliv e -> forall w, s_hopen s w = false.
+Proof. exact handles_closed. Qed.
+Print Assumptions C09_handles_closed.
+
+(* The code's waits are untimed (extracted from acquire on every run), which is what the LTS assumes: a thread in
+   condition.wait() has no step of its own; only the notify_all of a release makes it runnable.  The budget
+   invariant above is proved for every schedule of exactly this LTS. *)
+Theorem C09_waits_untimed :
+  acquire_wait_timeouts = [None; None] /\
+  forall c s w t, s_wk s w = WRun t PSleep -> step c s (TWrk w) = None.
+Proof.
+  split; [reflexivity|]. intros c s w t H. simpl. destruct (Nat.ltb w (nw c)); [|reflexivity].
+  unfold wstep. rewrite H. reflexivity.
+Qed.
+Print Assumptions C09_waits_untimed.
+
 (* ---------- non-vacuity: a schedule recorded from the implementation (2 workers, budget 3, sizes 3,2,5,3;
    tensors 0 and 3 are the same object; tensor 2 is oversized) in which a thread sleeps in the condition
    (event 11), an oversized reservation is granted (event 10), and the save succeeds. *)
 Definition ex_cfg : cfg :=
   mkCfg [mkTask 0 0 0 [83%Z; 243%Z; 39%Z] false false false; mkTask 0 1 3 [102%Z; 167%Z] false false false;
          mkTask 0 2 5 [13%Z; 19%Z; 211%Z; 138%Z; 25%Z] false false false;
-         mkTask 0 0 10 [83%Z; 243%Z; 39%Z] false false false] [false] [0; 0] 3%Z 1048576%Z false 1.
+         mkTask 0 0 10 [83%Z; 243%Z; 39%Z] false false false] [false] [0; 0] 3%Z 1048576%Z false 1 [].
 
 Definition ex_sched : list thread :=
-  [(TDrv 0); (TDrv 0); (TWrk 1); (TWrk 1); (TDrv 0); (TWrk 1); (TDrv 0); (TWrk 0); (TWrk 1); (TDrv 0); (TDrv 0);
-   (TWrk 1); (TWrk 1); (TWrk 0); (TWrk 0); (TWrk 0); (TWrk 1); (TWrk 0); (TWrk 0); (TWrk 1); (TWrk 0); (TWrk 1);
-   (TWrk 1); (TWrk 1); (TWrk 1); (TWrk 0); (TWrk 1); (TWrk 0); (TWrk 0); (TWrk 1); (TWrk 1); (TWrk 0); (TWrk 0);
-   (TWrk 0); (TWrk 0); (TWrk 1); (TWrk 0); (TWrk 1); (TWrk 1); (TWrk 1); (TWrk 1); (TWrk 0); (TWrk 0); (TWrk 0);
-   (TWrk 0); (TWrk 0); (TWrk 0); (TDrv 0); (TDrv 0); TMain].
+  [(TDrv 0); (TDrv 0); (TWrk 1); (TWrk 1); (TDrv 0); (TWrk 1); (TDrv 0); (TWrk 0); (TWrk 1); (TWrk 1); (TDrv 0);
+   (TDrv 0); (TWrk 1); (TWrk 0); (TWrk 0); (TWrk 0); (TWrk 1); (TWrk 0); (TWrk 0); (TWrk 1); (TWrk 0); (TWrk 1);
+   (TWrk 1); (TWrk 1); (TWrk 1); (TWrk 0); (TWrk 0); (TWrk 1); (TWrk 1); (TWrk 0); (TWrk 1); (TWrk 0); (TWrk 0);
+   (TWrk 1); (TWrk 0); (TWrk 1); (TWrk 1); (TWrk 1); (TWrk 1); (TWrk 1); (TWrk 0); (TWrk 0); (TWrk 0); (TWrk 0);
+   (TWrk 0); (TWrk 0); (TWrk 0); (TWrk 0); (TWrk 0); (TDrv 0); (TDrv 0); TMain].
 
 Example C09_example_hypotheses : wf_live ex_cfg /\ cb_protected ex_cfg /\ ranges_disjoint ex_cfg.
 Proof.
@@ -127,32 +161,54 @@ Qed.
 Example C09_example_run :
   match run ex_cfg init ex_sched with
   | Some s => s_main s = MDeliv false /\ s_files s 0 = serial_file ex_cfg 0 /\ s_cblog s = [0; 1; 2; 3]
-              /\ s_inflight s = 0%Z /\ s_over s = false
+              /\ s_inflight s = 0%Z /\ s_over s = false /\ s_nopen s = 2 /\ open_handles ex_cfg s = 0
+              /\ total_evals ex_cfg s = 4
   | None => False
   end.
 Proof. vm_compute. repeat split; reflexivity. Qed.
 
-(* the 19th step of that run puts worker 0 to sleep in the budget's condition; the 36th grants the
-   oversized reservation *)
+(* the 21st step of that run puts worker 0 to sleep in the budget's condition (both workers hold an open
+   descriptor by then); the 36th grants the oversized reservation *)
 Example C09_example_sleep_and_oversized :
-  (match run ex_cfg init (firstn 19 ex_sched) with Some s => s_wk s 0 = WRun 1 PSleep | None => False end) /\
+  (match run ex_cfg init (firstn 21 ex_sched) with
+   | Some s => s_wk s 0 = WRun 1 PSleep /\ s_hopen s 0 = true /\ s_hopen s 1 = true | None => False end) /\
   (match run ex_cfg init (firstn 36 ex_sched) with Some s => s_over s = true | None => False end).
-Proof. vm_compute. split; reflexivity. Qed.
+Proof. vm_compute. repeat split; reflexivity. Qed.
 
 (* a failing tensor: the exception is delivered, and only after everything stopped *)
 Definition ex_cfg_fail : cfg :=
   mkCfg [mkTask 0 0 0 [83%Z; 243%Z; 39%Z] false false false; mkTask 0 1 3 [102%Z; 167%Z] false false true;
          mkTask 0 2 5 [13%Z; 19%Z; 211%Z; 138%Z; 25%Z] false false false;
-         mkTask 0 3 10 [94%Z; 150%Z; 15%Z] false false false] [false] [0; 0] 3%Z 1048576%Z false 1.
+         mkTask 0 3 10 [94%Z; 150%Z; 15%Z] false false false] [false] [0; 0] 3%Z 1048576%Z false 1 [].
 Definition ex_sched_fail : list thread :=
-  [(TDrv 0); (TDrv 0); (TWrk 1); (TWrk 1); (TDrv 0); (TWrk 1); (TDrv 0); (TWrk 0); (TWrk 1); (TDrv 0); (TDrv 0);
-   (TWrk 1); (TWrk 1); (TWrk 0); (TWrk 0); (TWrk 0); (TWrk 1); (TWrk 0); (TWrk 0); (TWrk 1); (TWrk 0); (TWrk 1);
-   (TWrk 1); (TWrk 1); (TWrk 1); (TWrk 0); (TWrk 1); (TWrk 0); (TWrk 0); (TWrk 1); (TWrk 1); (TWrk 0); (TWrk 0);
-   (TDrv 0); (TWrk 0); (TWrk 1); (TWrk 0); (TWrk 1); (TWrk 1); (TWrk 1); (TWrk 1); (TWrk 0); (TWrk 0); (TWrk 0);
-   (TWrk 0); (TWrk 0); (TWrk 0); (TWrk 0); (TDrv 0); TMain].
+  [(TDrv 0); (TDrv 0); (TWrk 0); (TWrk 0); (TWrk 0); (TWrk 0); (TWrk 0); (TDrv 0); (TWrk 1); (TDrv 0); (TDrv 0);
+   (TDrv 0); (TWrk 1); (TWrk 0); (TWrk 1); (TWrk 0); (TWrk 0); (TWrk 1); (TWrk 1); (TWrk 0); (TWrk 1); (TWrk 0);
+   (TWrk 1); (TWrk 1); (TWrk 1); (TWrk 0); (TWrk 1); (TWrk 0); (TWrk 1); (TWrk 1); (TWrk 1); (TWrk 1); (TWrk 1);
+   (TDrv 0); (TWrk 1); (TWrk 0); (TWrk 0); (TWrk 0); (TWrk 0); (TWrk 0); (TWrk 1); (TWrk 0); (TWrk 0); (TWrk 1);
+   (TWrk 1); (TWrk 0); (TWrk 1); (TWrk 1); (TWrk 0); (TDrv 0); TMain].
 Example C09_example_error_run :
   match run ex_cfg_fail init ex_sched_fail with
   | Some s => s_main s = MDeliv true /\ s_cancel s 0 = true /\ s_inflight s = 0%Z
+  | None => False
+  end.
+Proof. vm_compute. repeat split; reflexivity. Qed.
+
+(* the second attempt to open a worker descriptor fails with OSError (EMFILE): the save raises, the other
+   worker's descriptor is closed, nothing is evaluated twice *)
+Definition ex_cfg_open : cfg :=
+  mkCfg [mkTask 0 0 0 [83%Z; 243%Z; 39%Z] false false false; mkTask 0 1 3 [102%Z; 167%Z] false false false;
+         mkTask 0 2 5 [13%Z; 19%Z; 211%Z; 138%Z; 25%Z] false false false;
+         mkTask 0 0 10 [83%Z; 243%Z; 39%Z] false false false] [false] [0; 0] 3%Z 1048576%Z false 1 [1].
+Definition ex_sched_open : list thread :=
+  [(TDrv 0); (TDrv 0); (TWrk 0); (TWrk 0); (TWrk 0); (TWrk 0); (TWrk 0); (TDrv 0); (TWrk 1); (TDrv 0); (TDrv 0);
+   (TDrv 0); (TWrk 1); (TWrk 0); (TWrk 1); (TWrk 0); (TWrk 0); (TWrk 1); (TWrk 1); (TWrk 0); (TWrk 1); (TWrk 0);
+   (TWrk 0); (TWrk 1); (TWrk 1); (TWrk 1); (TWrk 0); (TWrk 1); (TWrk 1); (TWrk 0); (TDrv 0); (TWrk 0); (TWrk 0);
+   (TWrk 1); (TWrk 1); (TWrk 0); (TWrk 1); (TWrk 0); (TWrk 0); (TWrk 0); (TWrk 0); (TWrk 0); (TWrk 1); (TWrk 1);
+   (TWrk 1); (TDrv 0); TMain].
+Example C09_example_open_failure :
+  match run ex_cfg_open init ex_sched_open with
+  | Some s => s_main s = MDeliv true /\ s_nopen s = 3 /\ open_handles ex_cfg_open s = 0
+              /\ s_ts s 1 = TDone true /\ s_evals s 1 = 0 /\ s_inflight s = 0%Z
   | None => False
   end.
 Proof. vm_compute. repeat split; reflexivity. Qed.
